@@ -37,7 +37,7 @@ INVARIANT ReturnsChanged
 INVARIANT Fixpoint
 """
 
-KINDS = ["a", "b", "c", "p", "x", "e", "d", "f", "g", "h"]
+KINDS = ["a", "b", "c", "p", "x", "e", "d", "f", "g", "h", "j"]
 
 
 def kind_of(op) -> str:
@@ -145,7 +145,22 @@ def make_patterns():
                 rewriter.replace_all_uses_with(op.results[0], op.operands[0])
                 rewriter.erase(op)
 
-    return [EraseA(), ReplaceB(), ModifyC(), EraseTreeP(), EraseOtherX(), InsertE(), InlineF(), ArgG(), ForwardH()]
+    class InsertThenForwardJ(RewritePattern):
+        """mutates first (in-place + insertion), then forwards every result to an operand - also results that have no uses -
+        and does nothing afterwards: the match as a whole changed the IR whatever the last call found to do"""
+
+        def match_and_rewrite(self, op: Operation, rewriter: PatternRewriter):
+            if kind_of(op) == "j" and len(op.operands) >= 1 and len(op.results) >= 1 and not op.regions:
+                set_kind(op, "d")
+                rewriter.notify_op_modified(op)
+                n = test.TestOp.create(result_types=[i32])
+                set_kind(n, "d")
+                rewriter.insert(n, InsertPoint.before(op))
+                for r in op.results:
+                    if op.operands[0] is not r:
+                        rewriter.replace_all_uses_with(r, op.operands[0])
+
+    return [EraseA(), ReplaceB(), ModifyC(), EraseTreeP(), EraseOtherX(), InsertE(), InlineF(), ArgG(), ForwardH(), InsertThenForwardJ()]
 
 
 def gen_module(rng, kinds_parents: tuple[list[str], list[int]] | None = None):
